@@ -29,7 +29,7 @@ import (
 //           k in {1,2,3} times to the same request (what a redirection does)
 // oracle    value read back = value written (values not starting with the header); stored bytes are
 //           read back via GET, HGET, HGETALL, GETSET; the original or header + a stream that the snappy library itself decodes to the original
-//           and is strictly shorter; banned commands are stopped with an error
+//           and is strictly shorter; banned commands are stopped with an error, in every upper/lower-case spelling
 // ---------------------------------------------------------------------------
 
 func c13cps(enable bool, t uint32) *pbredis.Compression {
@@ -254,7 +254,20 @@ func c13filter(env sched.Env) *sched.Report {
 		cfg := vfConfig(0, c13cps(true, 8))
 		chain := newRequestFilterChain()
 		chain.AddFilter(newCompressFilter(cfg))
-		for _, b := range []string{"append", "eval", "setbit", "getbit", "setrange", "getrange", "APPEND", "GetRange"} {
+		// every spelling of every banned command (each letter in lower or in upper case)
+		var spellings []string
+		for _, name := range []string{"append", "eval", "setbit", "getbit", "setrange", "getrange"} {
+			for mask := 0; mask < 1<<len(name); mask++ {
+				b := []byte(name)
+				for i := range b {
+					if mask&(1<<i) != 0 {
+						b[i] -= 'a' - 'A'
+					}
+				}
+				spellings = append(spellings, string(b))
+			}
+		}
+		for _, b := range spellings {
 			rep.Execs++
 			sched.Progress(nil)
 			req := newSimpleRequest(newStringArray(b, "k", "1", "2"))
@@ -269,7 +282,7 @@ func c13filter(env sched.Env) *sched.Report {
 				sig := "banned-command-not-rejected / " + strings.ToLower(b)
 				if !sigs[sig] {
 					sigs[sig] = true
-					rep.Violations = append(rep.Violations, sched.CustomViolation("C13/filter", sig, "", c13fcase{}))
+					rep.Violations = append(rep.Violations, sched.CustomViolation("C13/filter", sig, fmt.Sprintf("spelled %q", b), c13fcase{}))
 				}
 			}
 		}
